@@ -29,6 +29,7 @@ DISPATCH = {
     "C17": ("harness.props.c17", "run"),
     "C18": ("harness.props.c18", "run"),
     "C19": ("harness.props.c19", "run"),
+    "C20": ("harness.props.c20", "run"),
 }
 
 
